@@ -69,12 +69,17 @@ fn eval1d<T: Fl>(kind: &Kind, x: &[T], data: &Array2<T>, qs: &[T]) -> Result<Arr
 
 fn queries(x: &[f64]) -> Vec<f64> {
     let mut q = alpha::grid_queries(x, 4);
+    // just off the knots (2^-20 away): exactly representable also after large grid shifts
+    for i in 1..x.len() {
+        q.push(x[i] - 2.0f64.powi(-20));
+        q.push(x[i - 1] + 2.0f64.powi(-20));
+    }
     let p = x[x.len() - 1] - x[0];
     q.extend([x[0] - p * 0.25, x[0] - p, x[x.len() - 1] + p * 0.25, x[x.len() - 1] + 2.0 * p]);
     q
 }
 
-fn factors(quick: bool) -> Vec<(f64, f64)> {
+fn factors(quick: bool, f32: bool) -> Vec<(f64, f64)> {
     let cx = [2.0f64.powi(-20), 0.125, 2.0, 32.0, 1048576.0, 3.0, 0.1];
     let cd = [2.0f64.powi(-20), 0.5, -1.0, 128.0, 1048576.0, 3.0, -0.1];
     let mut v = vec![];
@@ -88,6 +93,14 @@ fn factors(quick: bool) -> Vec<(f64, f64)> {
         for i in 0..7 {
             v.push((cx[i], cd[6 - i]));
         }
+        // far outside the usual units
+        // (f32: squares of interval lengths must stay inside the exponent range)
+        for e in if f32 { [24, 30] } else { [60, 100] } {
+            v.push((1.0, 2.0f64.powi(-e)));
+            v.push((1.0, 2.0f64.powi(e)));
+            v.push((2.0f64.powi(-e), 1.0));
+            v.push((2.0f64.powi(e), 1.0));
+        }
     } else {
         for &a in &cx {
             for &b in &cd {
@@ -100,11 +113,18 @@ fn factors(quick: bool) -> Vec<(f64, f64)> {
         for &b in &cd {
             v.push((1.0, b));
         }
+        for e in if f32 { vec![24, 30] } else { vec![40, 60, 100, 300] } {
+            v.push((1.0, 2.0f64.powi(-e)));
+            v.push((1.0, 2.0f64.powi(e)));
+            v.push((2.0f64.powi(-e), 1.0));
+            v.push((2.0f64.powi(e), 1.0));
+            v.push((2.0f64.powi(e), 2.0f64.powi(e)));
+        }
     }
     v
 }
 
-const SHIFTS: [f64; 5] = [1.0, -1.0, 8.0, -8.0, 1024.0];
+const SHIFTS: [f64; 8] = [1.0, -1.0, 8.0, -8.0, 1024.0, 2147483648.0, -1099511627776.0, 8796093022208.0];
 
 fn run1d<T: Fl>(job: &Job, quick: bool, out: &mut JobOut) {
     let axis = &job.ax;
@@ -166,7 +186,7 @@ fn run1d<T: Fl>(job: &Job, quick: bool, out: &mut JobOut) {
     };
 
     // ---- change of units
-    for (cx, cd) in factors(quick) {
+    for (cx, cd) in factors(quick, T::NAME == "f32") {
         let (Some(cxt), Some(cdt)) = (T::from_f64_exact(cx).or(Some(T::from_f64_lossy(cx))), Some(T::from_f64_lossy(cd))) else {
             continue;
         };
@@ -326,7 +346,7 @@ fn run1d<T: Fl>(job: &Job, quick: bool, out: &mut JobOut) {
         }
     }
     if out.sample.is_none() {
-        out.sample = Some(case(vec![("lanes", Json::Int(nl as i128)), ("queries", Json::f64s(&q64)), ("factor_pairs", Json::Int(factors(quick).len() as i128)), ("shifts", Json::f64s(&SHIFTS))]));
+        out.sample = Some(case(vec![("lanes", Json::Int(nl as i128)), ("queries", Json::f64s(&q64)), ("factor_pairs", Json::Int(factors(quick, T::NAME == "f32").len() as i128)), ("shifts", Json::f64s(&SHIFTS))]));
     }
 }
 
@@ -518,7 +538,7 @@ fn body(ctx: &Ctx) -> (Summary, Meta) {
     });
     let meta = Meta {
         rule: "for every (axis, strategy/boundary configuration): a base interpolator and twins in converted units: axis and queries x cx, data x cd (derivative boundary values converted with cd/cx and cd/cx^2), grid shifts of axis+queries, and the sum of every pair of lanes; in-range and extrapolated queries. Powers of two, negation and grid shifts must be bit-identical; factors 3 and 1/10 and superposition within rounding. Every comparison is non-trivial.".into(),
-        bounds: format!("{njobs} (type, axis/grid, configuration) jobs; {} (cx, cd) pairs from cx in {{2^-20,2^-3,2,2^5,2^20,3,1/10}}, cd in {{2^-20,1/2,-1,2^7,2^20,3,-1/10}}; shifts {:?}; 2-D: independent cx, cy; tier {}", factors(quick).len(), SHIFTS, ctx.tier.name()),
+        bounds: format!("{njobs} (type, axis/grid, configuration) jobs; {} (cx, cd) pairs from cx in {{2^-20,2^-3,2,2^5,2^20,3,1/10}}, cd in {{2^-20,1/2,-1,2^7,2^20,3,-1/10}}; shifts {:?}; 2-D: independent cx, cy; tier {}", factors(quick, false).len(), SHIFTS, ctx.tier.name()),
         assumptions: vec!["inexact factors: tolerance K eps |result| (4 + 2 max|x|/h_min) (the rounded knots perturb the interval lengths)".into()],
         extra: vec![],
     };
